@@ -305,7 +305,13 @@ func (fr *Frame) evalBinary(sc *Scope, x *EBin) Val {
 	case "||":
 		return scalar(boolT, Or(fr.evalBool(sc, x.X), fr.evalBool(sc, x.Y)))
 	case "==>":
-		return scalar(boolT, Implies(fr.evalBool(sc, x.X), fr.evalBool(sc, x.Y)))
+		// short-circuit: with a statically false antecedent the consequent need not even be well-typed
+		// (e.g. "arg0 == c.memory ==> ..." at a call whose receiver has another type)
+		ant := fr.evalBool(sc, x.X)
+		if ant.S == "false" {
+			return scalar(boolT, True)
+		}
+		return scalar(boolT, Implies(ant, fr.evalBool(sc, x.Y)))
 	case "<==>":
 		return scalar(boolT, Eq(fr.evalBool(sc, x.X), fr.evalBool(sc, x.Y)))
 	}
@@ -322,6 +328,8 @@ func (fr *Frame) evalBinary(sc *Scope, x *EBin) Val {
 			eq = fr.nilTest(b)
 		case a.K == KKey && b.K == KKey:
 			eq = Eq(a.C[0], b.C[0])
+		case ptrTypesDiffer(a, b):
+			eq = False // pointers of different static types never alias (no unsafe casts in the subset)
 		default:
 			// struct values are navigated by reference in contract expressions; == compares contents
 			loadNav := func(v Val) Val {
@@ -982,6 +990,24 @@ func (fr *Frame) evalCall(sc *Scope, x *ECall) Val {
 		argn(1)
 		v := fr.evalExpr(sc, x.Args[0])
 		return scalar(boolT, Eq(fr.top.dotFld(fr.refOf(v)), IntT(0)))
+	case "objKept":
+		// objKept(s): the whole backing object of slice s (as it was in the pre-state) has its old content
+		argn(1)
+		if sc.old == nil {
+			cfail("objKept() needs a pre-state")
+		}
+		osc := *sc
+		osc.st = sc.old
+		v := fr.evalExpr(&osc, x.Args[0])
+		sl, ok := v.T.Underlying().(*types.Slice)
+		if !ok {
+			cfail("objKept(%s): not a slice", ExprString(x.Args[0]))
+		}
+		var cs []Term
+		for k := range fr.en.layout(sl.Elem()) {
+			cs = append(cs, Eq(fr.objArray(sc.st, v.Obj(), sl.Elem(), k), fr.objArray(sc.old, v.Obj(), sl.Elem(), k)))
+		}
+		return scalar(boolT, Or(Eq(v.Obj(), Nil), And(cs...)))
 	case "rootBytesKept":
 		// rootBytesKept(): the byte content of every root object is what it was in the pre-state
 		argn(0)
@@ -1168,4 +1194,19 @@ func addIdx(base, i Term) Term {
 		}
 	}
 	return IAdd(base, i)
+}
+
+// ptrTypesDiffer: both values are pointers to different named struct types.
+func ptrTypesDiffer(a, b Val) bool {
+	if a.K != KNormal || b.K != KNormal || a.T == nil || b.T == nil || a.Nav || b.Nav {
+		return false
+	}
+	pa, ok1 := a.T.Underlying().(*types.Pointer)
+	pb, ok2 := b.T.Underlying().(*types.Pointer)
+	if !ok1 || !ok2 {
+		return false
+	}
+	_, s1 := pa.Elem().Underlying().(*types.Struct)
+	_, s2 := pb.Elem().Underlying().(*types.Struct)
+	return s1 && s2 && !types.Identical(pa.Elem(), pb.Elem())
 }
